@@ -13,7 +13,7 @@ ev == Rec[l]
 Check(P) == IF P THEN TRUE ELSE FALSE
 IsEvent(e) == l <= Len(Rec) /\ Rec[l].ev = e /\ l' = l + 1
 Count(i) == TLCSet(i, TLCGet(i) + 1)
-St0 == [open |-> FALSE, large |-> FALSE, acc |-> BZero, dead |-> FALSE, larges |-> <<>>, fin |-> "none"]
+St0 == [open |-> FALSE, large |-> FALSE, acc |-> BZero, dead |-> FALSE, larges |-> <<>>, fin |-> "none", nold |-> 0]
 Cls(ok) == IF ok THEN "ok" ELSE "err"
 
 TraceReset == IsEvent("Reset") /\ st' = St0
@@ -36,7 +36,7 @@ TraceRawCopy ==
    /\ IsEvent("ZRawCopy") /\ Check(ev.r = Cls(~st.dead))
    /\ st' = [st EXCEPT !.open = FALSE, !.larges = IF ev.r = "ok" THEN Append(st.larges, Need(ev.usize) \/ Need(ev.csize)) ELSE st.larges]
 \* opening the finished archive for append keeps every old entry (their local headers are not touched again)
-TraceAppend == IsEvent("ZAppend") /\ Check(ev.r = "ok" /\ st.fin = "ok") /\ st' = [st EXCEPT !.fin = "none", !.open = FALSE]
+TraceAppend == IsEvent("ZAppend") /\ Check(ev.r = "ok" /\ st.fin = "ok") /\ st' = [st EXCEPT !.fin = "none", !.open = FALSE, !.nold = Len(st.larges)]
 TraceBulk ==
    /\ IsEvent("ZBulk") /\ Check(ev.ok = (IF st.dead THEN 0 ELSE ev.count))
    /\ st' = [st EXCEPT !.open = FALSE, !.larges = st.larges \o [i \in 1..ev.ok |-> FALSE]]
@@ -59,8 +59,8 @@ TraceArch ==
    /\ Check(ev.reader.r = "ok" /\ ev.reader.len = ev.n /\ ev.reader.names_digest = ev.names_digest
             /\ BEq(ev.reader.offset, ev.prefix) /\ ev.reader.comment.id = ev.eocd.comment.id)
    /\ Check(\A k \in 1..Len(ev.sel) : LET s == ev.sel[k] IN
-         /\ CentralOk(s.c) /\ LocalAgrees(s.c, s.l)
-         /\ (IsWriter(ev) => CentralWriter(s.c) /\ LocalWriter(s.l, st.larges[s.i]))
+         /\ CentralOk(s.c, s.i <= st.nold) /\ LocalAgrees(s.c, s.l)
+         /\ (IsWriter(ev) => CentralWriter(s.c, s.i <= st.nold) /\ LocalWriter(s.l, st.larges[s.i]))
          /\ ReaderAgrees(ev, s.c, s.l, s.rd))
    /\ Check(\A k \in 1..Len(ev.expect.sizes) : LET x == ev.expect.sizes[k] IN
          \E j \in 1..Len(ev.sel) : ev.sel[j].i = x.i /\ BEq(ev.sel[j].c.usize, x.usize) /\ ev.sel[j].c.crc = x.crc)
